@@ -6,7 +6,7 @@ D = ["-D__NO_CTYPE"]
 STUBS_RUN = ["do_tokenize:do_tokenize_contract", "find_command:find_command_contract", "do_prompt:do_prompt_contract"]
 STUBS_EVAL = ["do_tokenize:do_tokenize_contract", "find_command:find_command_contract"]
 NAMES = "command names of 1..4 characters (any bytes); table size is the real constant 32, every fill 0..31"
-EQ_LEN, TEXT_LEN = 8, 6
+EQ_LEN, EQ_LEN_T, TEXT_LEN = 8, 11, 6
 
 
 RUNLOOP = ["console_run.3:3"]   # the while(1) of console_run: one iteration per unread character (the step harnesses hold at most one), checked by the unwinding assertion
@@ -22,6 +22,23 @@ def _both(name, entry, funcs, defs=(), lp_unwind=162, **kw):
 
 
 _CASES = [("dispatch", 0), ("backspace", 1), ("ctrlc", 2), ("store", 3)]
+Q, T = ("quick",), ("thorough",)
+TOK_WIN = 24
+
+
+def _eval_step(n, tiers):
+    return _both("eval_step_len%d" % n, "h_eval_step", ["console_eval"], defs=["-DEVS_LEN=%d" % n], replace_calls=STUBS_RUN,
+                 unwindset=RUNLOOP + ["console_eval.1:%d" % (n + 3)], timeout=900, cbmc_flags=["--object-bits", "12"], tiers=tiers,
+                 bounded="injected text of at most %d characters (any bytes), ring holding 0..15 unread bytes at any position; first invocation and one resumption "
+                         "after an arbitrary partial drain of the ring" % n)
+
+
+def _equiv(n, tiers):
+    return [H("tokenize_equiv_len%d" % n, F, "h_tok_equiv", ["do_tokenize"], defs=D + ["-DEQ_LEN=%d" % n], unwind=162,
+              unwindset=["do_tokenize.0:%d" % (n + 2), "strlen.0:%d" % (n + 2)], solvers=("cadical", "minisat"), timeout=1800, tiers=tiers,
+              bounded="lines of at most %d characters over the alphabet {a, b, space, tab, ', \", NUL}, well-formed quoting" % n)]
+
+
 HS = (
     _both("run_init", "h_run_init", ["console_init", "console_run", "do_prompt", "console_silent"], replace_calls=STUBS_EVAL, unwindset=RUNLOOP, timeout=300) +
     sum([_both("run_wait_%s%s" % (cn, "_sentinel" if k else ""), "h_run_wait", ["console_run", "console_getch"], defs=["-DRUN_CASE=%d" % c, "-DRUN_K=%d" % k],
@@ -35,17 +52,21 @@ HS = (
           bounded="the console protothread yields at most 3 times per character (the loop of console_process has no state of its own)",
           note="console_process = ring put + console_run until it no longer yields; console_run substituted by a stub that only answers and counts (its step contract is run_wait / run_spawn)") +
     _both("do_prompt", "h_prompt", ["do_prompt"], timeout=300) +
-    _both("tokenize", "h_tokenize", ["do_tokenize"], unwindset=["do_tokenize.0:81", "strlen.0:81"], solvers=("minisat", "cadical"), timeout=900,
+    # tokenizer, structural guarantees: complete in the thorough tier (several minutes); the quick tier runs two windows of the same harness
+    _both("tokenize", "h_tokenize", ["do_tokenize"], unwindset=["do_tokenize.0:81", "strlen.0:81"], solvers=("minisat", "cadical"), timeout=3000, tiers=T,
+          cbmc_flags=["--slice-formula"],
           note="every content of the 80-byte line buffer: the loop bound 80 is a constant, unwound completely") +
-    [H("tokenize_equiv", F, "h_tok_equiv", ["do_tokenize"], defs=D + ["-DEQ_LEN=%d" % EQ_LEN], unwind=162, unwindset=["do_tokenize.0:%d" % (EQ_LEN + 2), "strlen.0:%d" % (EQ_LEN + 2)], solvers=("minisat", "cadical"), timeout=900,
-       bounded="lines of at most %d characters over the alphabet {a, b, space, tab, ', \", NUL}, well-formed quoting" % EQ_LEN)] +
+    _both("tokenize_head%d" % TOK_WIN, "h_tokenize", ["do_tokenize"], defs=["-DTOK_HEAD=%d" % TOK_WIN], unwindset=["do_tokenize.0:%d" % (TOK_WIN + 2), "strlen.0:%d" % (TOK_WIN + 2)],
+          timeout=900, tiers=Q, bounded="quick-tier stand-in for `tokenize`: lines that end within the first %d bytes of the buffer (any bytes)" % TOK_WIN) +
+    _both("tokenize_tail%d" % TOK_WIN, "h_tokenize", ["do_tokenize"], defs=["-DTOK_TAIL=%d" % TOK_WIN], unwindset=["do_tokenize.0:81", "strlen.0:81"],
+          timeout=900, tiers=Q, bounded="quick-tier stand-in for `tokenize`: full-length lines whose last %d bytes are arbitrary (after plain characters)" % TOK_WIN) +
+    _equiv(EQ_LEN, Q) + _equiv(EQ_LEN_T, T) +
     [H("table_init", F, "h_table_init", ["cmd_table (static initialiser)"], defs=D, unwind=34, timeout=120, cover=False)] +
     _both("find_command", "h_find", ["find_command"], solvers=("cadical", "minisat"), timeout=900, bounded=NAMES) +
     _both("register", "h_register", ["console_register"], unwindset=["strcmp.0:6"], solvers=("cadical", "minisat"), timeout=900, bounded=NAMES) +
     _both("builtin", "h_builtin", ["console_echo", "console_unknown"], timeout=300) +
     _both("putchar", "h_putchar", ["console_putchar"], timeout=300) +
-    _both("eval_step", "h_eval_step", ["console_eval"], replace_calls=STUBS_RUN, unwindset=RUNLOOP + ["console_eval.1:9"], timeout=600, cbmc_flags=["--object-bits", "12"],
-          bounded="injected text of at most 6 characters (any bytes), ring holding 0..15 unread bytes at any position; first invocation and one resumption after an arbitrary partial drain of the ring") +
+    _eval_step(4, Q) + _eval_step(6, T) +
     [H("eval_seq", F, "h_eval_seq", ["console_eval", "console_run", "console_init", "do_prompt"], defs=D + ["-DTEXT_LEN=%d" % TEXT_LEN],
        replace_calls=["console_run:console_run_steps"], unwind=162, unwindset=["console_eval.1:%d" % (TEXT_LEN + 2)], timeout=900, cbmc_flags=["--object-bits", "12"],
        bounded="injected text of at most %d characters over {x, space, newline}; ring of the real size (16) holding 12 unread typed characters when the injection starts (room for 3); commands exit at once" % TEXT_LEN,
@@ -57,15 +78,17 @@ HS = (
 def _mc(tier, recs):
     names = {h.name for h, r in recs}
     # bounded universes that were explored completely (symbolically) by the discharged bounded harnesses
-    eq = sum(7 ** k * 6 for k in range(EQ_LEN)) + 1 if "tokenize_equiv" in names else 0     # lines: k non-NUL characters then NULs
+    L = EQ_LEN_T if tier == "thorough" else EQ_LEN
+    eq = sum(6 ** k for k in range(L + 1)) if ("tokenize_equiv_len%d" % L) in names else 0     # lines: k non-NUL characters over 6 symbols, then NULs
     ev = sum(3 ** k for k in range(TEXT_LEN + 1)) if "eval_seq" in names else 0
     return {"states": eq + ev,
             "transitions": eq + ev,
             "traces_validated_against_impl": eq + ev,
             "rule_model_checking": "states = members of the bounded input universes of the bounded harnesses that were discharged in this run, each covered symbolically by one query: "
-                                   "tokenizer lines (up to %d characters over 6 symbols + NUL padding), injected texts (up to %d characters over 3 symbols); the table harnesses (names of up to 4 arbitrary bytes, every fill 0..31) and the unbounded step contracts are not counted. "
+                                   "tokenizer lines (up to %d (quick) / %d (thorough) characters over 6 symbols + NUL padding; lines with ill-formed quoting are inside the count but only checked for memory safety), "
+                                   "injected texts (up to %d characters over 3 symbols); the table harnesses (names of up to 4 arbitrary bytes, every fill 0..31) and the unbounded step contracts are not counted. "
                                    "transitions = one run of the real code per member; there is no separate model: the real console.c is what is executed, hence traces_validated_against_impl = states"
-                                   % (EQ_LEN, TEXT_LEN)}
+                                   % (EQ_LEN, EQ_LEN_T, TEXT_LEN)}
 
 
 prop("C15", "model_checking",
@@ -92,3 +115,25 @@ claim("C15", "model_checking",
       "streams of any length by induction. Tokenizer equivalence (lines <= %d) and console_eval delivery (texts <= %d) are bounded." % (EQ_LEN, TEXT_LEN),
       "I/O and fibre scheduling stubbed; command bodies by contract; LP64 and ILP32 data models for the memory-safety harnesses; native replay is LP64 only.",
       "DESIGN.md 5.C15")
+
+
+# ------------------------------------------------------------------------------------------------ self-test mutants
+# No unit test touches the console (src/consoledemo.c is interactive), so every one of these passes `make check`.
+CC = "librfn/console.c"
+mut("C15", "full-buffer-test-one-late", [(CC, "c->bufp >= &c->scratch.buf[79]", "c->bufp >= &c->scratch.buf[80]")],
+    r"full buffer dispatches|buf\[79\] == 0", only=r"^run_wait_(dispatch|store)$")
+mut("C15", "argc-limit-gt", [(CC, "if (++c->argc >= (int) lengthof(c->argv))", "if (++c->argc > (int) lengthof(c->argv))")],
+    r"1 <= argc <= 4|array_bounds|argv\[i\] points into", only=r"^tokenize_(head24|equiv_len8)$")
+mut("C15", "backspace-no-lower-bound", [(CC, "if (c->bufp > c->scratch.buf) {", "if (c->bufp >= c->scratch.buf) {")],
+    r"never before the start", only=r"^run_wait_backspace$")
+mut("C15", "register-shifts-from-the-front", [(CC, "\tfor (j = lengthof(cmd_table) - 1; j > i; j--)\n\t\tcmd_table[j] = cmd_table[j-1];",
+                                                 "\tfor (j = i + 1; j < lengthof(cmd_table); j++)\n\t\tcmd_table[j] = cmd_table[j-1];")],
+    r"console_register inserts", only=r"^register$")
+mut("C15", "find-command-prefix-match", [(CC, "if (0 == strcmp(c->argv[0], (*cmd)->name))", "if (0 == strncmp(c->argv[0], (*cmd)->name, strlen((*cmd)->name)))")],
+    r"find_command selects|found by its exact name", only=r"^find_command$")
+mut("C15", "ctrl-c-keeps-the-line", [(CC, "\t\t\tfprintf(c->out, \"\\n\");\n\t\t\tdo_prompt(c);", "\t\t\tfprintf(c->out, \"\\n\");\n\t\t\tc->bufp = c->scratch.buf;")],
+    r"Ctrl-C discards", only=r"^run_wait_ctrlc$")
+mut("C15", "register-full-test-one-early", [(CC, "if (cmd_table[lengthof(cmd_table)-1])", "if (cmd_table[lengthof(cmd_table)-2])")],
+    r"registration succeeds while the table has a free slot", only=r"^register$")
+mut("C15", "tokenizer-splits-inside-quotes", [(CC, "if (isspace((int) c->scratch.buf[i]) && !quote) {", "if (isspace((int) c->scratch.buf[i])) {")],
+    r"split on unquoted white space", only=r"^tokenize_equiv_len8$")
